@@ -451,12 +451,15 @@ func TestC02Env(t *testing.T) {
 	scs := []envScenario{
 		{"2 files, 1 thread, delete, one-shot", confOneThread(), withFiles(confOneThread(), "rewrite", "append")},
 		{"2 files, 1 thread, keep, daemon", asDaemon(confKeep()), withFiles(confKeep(), "rewrite")},
-		{"3 files, 2 threads, delete, daemon", asDaemon(confTwoThreads()), withFiles(confTwoThreads())},
+		{"2 files, 1 thread, delete, daemon", asDaemon(confOneThread()), withFiles(confOneThread(), "rewrite", "append")},
 		{"2 files, delete, receiver holds an older version known only from its log", confOneThread(), func(r *rig) {
 			armC02(r)
 			r.fileOps = []string{"rewrite"}
 			r.preload = []preloaded{{Name: "g/a", Data: "older version of a", AgeH: 30}}
 		}},
+	}
+	for i := range scs {
+		scs[i].conf.Horizon = 10 * time.Minute
 	}
 	runEnvProperty(t, "C02", "release of source files (E-ENV)", scs, d,
 		func(ev vh.EnvEvent, plan []vh.Deviation) []string {
@@ -469,9 +472,14 @@ func TestC02Env(t *testing.T) {
 			case "done", "remove", "persist", "sent":
 				out = pick(ev.Menu, "crash")
 			}
+			if kindOf(ev.Key) == "remove" {
+				// a writer that strikes between the sender's last comparison and the unlink
+				// cannot be fended off without file locking: not part of the alphabet
+				return out
+			}
 			return append(out, pick(ev.Menu, "file:")...)
 		}, c02Check,
-		"at every Store.Remove and Cache.Done of the sender: the receiver durably holds a validated copy with the hash of the bytes being released, and a positive poll answer asked after the last acknowledgement precedes the release; plans with <= 2 deviations over: poll request refused / answer lost, a corrupted part (validation failure), lost data answer, sender crash at data / poll / done / delete / cache-write / sent-log actions, receiver restart, the source file rewritten (same size) or appended to at any sender action; delete on and off; a receiver that delivered an older version of the same name in an earlier run")
+		"at every Store.Remove and Cache.Done of the sender: the receiver durably holds a validated copy with the hash of the bytes being released, and a positive poll answer asked after the last acknowledgement precedes the release; plans with <= 2 deviations over: poll request refused / answer lost, a corrupted part (validation failure), lost data answer, sender crash at data / poll / done / delete / cache-write / sent-log actions, receiver restart, the source file rewritten (same size) or appended to at any sender action except at the very instant of the unlink; delete on and off, one-shot and daemon; a receiver that delivered an older version of the same name in an earlier run")
 }
 
 // c16Drained: everything the scans found was transmitted completely and polled to a verdict;
